@@ -24,7 +24,7 @@ def _cv(v):
     except ImportError:
         pass
     if isinstance(v, bool):
-        return ("b", v)
+        return ("q", int(v), 1)       # True == 1 == 1.0: the hash functions are functions of the numeric value (a mean of n copies of True is 1.0)
     if isinstance(v, int):
         return ("q", v, 1)
     if isinstance(v, float):
@@ -82,6 +82,10 @@ def make_names(kind, d):
     if kind == "mixed":
         pool = ["a", 1, 2.5, "b", 4, 5.5, "c", 7]
         return pool[:d]
+    if kind == "spelled":    # str names that SPELL a numeric name next to it: distinct dict keys ('1' != 1), equal only after str()
+        return ["1", 1, 2.5, "2.5", 0, "0", -3, "-3"][:d]
+    if kind == "odd":        # legal but unusual: empty / blank / non-ASCII strings, negative and huge numbers
+        return ["", -1, " ", 1e300, "\u00dcn\u00ef", 10 ** 20, "f 1", -0.5][:d]
     raise ValueError(kind)
 
 
@@ -103,6 +107,11 @@ class Models:
         if self.out_type == "np0d":                   # ... and so are 0-dimensional arrays
             import numpy as np
             return np.array(n / 8.0)
+        if self.out_type == "npbool":                 # boolean-valued outputs ({'output': x['a'] + x['b'] > 1} on NumPy inputs)
+            import numpy as np
+            return np.bool_(n % 2)
+        if self.out_type == "pybool":
+            return n % 3 == 0
         if self.out_type == "int":                    # integer-valued outputs: integer arithmetic paths (floor / truncation traps)
             return int(n)
         return n / 8.0   # /8: float means of <=8 stay exact-ish
